@@ -50,13 +50,15 @@ CLAIMED = {
         text='Textual inliner spec (Spec/InlineSpec.v) and full transcription of the preprocessor (Model/Macro.v). Qed theorems: '
              'C03_inline (the preprocessor model expands a well-formed macro tree to exactly the op list of its spec-inlined '
              'macro-free program, labels equal up to debug start labels), C03_subst_once (arguments are substituted once, never '
-             're-substituted), C03_rep / C03_rep_zero, C03_fresh / C03_fresh_paths (generated names never collide with user '
+             're-substituted), C03_inline_any_naming (for every naming of the local labels that is injective on (expansion '
+             'path, label) and avoids the program\'s own names, the inlined macro-free program resolves to the same op values: '
+             'image equality up to label names), C03_rep / C03_rep_zero, C03_fresh / C03_fresh_paths (generated names never collide with user '
              'names and are injective in the expansion path), C03_split, C03_ns_resolve. Per run: generated macro programs '
              'assembled by the real assembler as (a) macro program, (b) inliner output, (c) split files - identical images '
              'required - and Macro.v / the C03_inline conclusion / wf_tree evaluated in Coq on the real parser\'s tree.',
         design_ref='DESIGN.md section 4, C03',
-        note='partial: C03_inline is proved for the code\'s own naming (shown fresh and injective); the generalisation to every '
-             'admissible naming is stated, not proved, and is evaluated on the real code with flat names. Rep counts that '
+        note='C03_inline_any_naming covers every admissible naming (C03_admissible_namings: the code\'s own and a tagged one); '
+             'the harness\'s position-based naming is evaluated on the real code, its admissibility is not proved. Rep counts that '
              'depend on label addresses are outside `inline`; `$` in call arguments is excluded (known finding F20); file '
              'short names are assumed to be identifiers; lexer/LALR parser shared through the tree dump.',
         technique='Coq simulation proof (preprocessor model = expansion of the spec-inlined program) + the property evaluated on the real assembler'),
@@ -209,17 +211,17 @@ CLAIMED = {
         category='proof',
         text='Qed-closed theorems over an executable Gallina model of parser folding, macro resolution, label resolution/layout, '
              'the writer and the assemble exception ladder: under one boolean guard per open finding the outcome is success or '
-             'a specific library exception (C14_specific); unguarded: only four raw classes can reach the catch-all '
+             'a specific library exception (C14_specific); unguarded: only MemoryError can reach the catch-all '
              '(C14_catch_all_classes) and a failed assembly never touches the output path (C14_no_file_on_failure, '
              'C14_never_partial_file). Each guard is refuted by a vm_compute witness; the fixed F7/F8/F9 witnesses are proved '
              'to be library errors. Campaign: per-error-class generators and token/byte mutations at every width and version, '
              'with and without the stl, under a watchdog; the spec is evaluated on every real assembly.',
         design_ref='DESIGN.md section 4, C14',
         note='partial: sly\'s lexer and LALR driver are exercised, not modelled; depth, count and bit limits are model '
-             'parameters and the generators avoid the bands where CPython stack or memory state decides; guards of C14_specific = '
-             'known findings F10 (expression depth) and F9b/N6 (counts too large to materialise) plus the parser-output fact '
-             'has_main; C14_catch_all_classes: only RecursionError and MemoryError can reach the catch-all; F7, F8, F9, N1-N5 '
-             'fixed.',
+             'parameters and the generators avoid the bands where CPython stack or memory state decides; guard of C14_specific = '
+             'known findings F9b/N6 (counts too large to materialise) plus the parser-output fact has_main; F7, F8, F9, F10, '
+             'N1-N5, N7 fixed; in-process sequences of assemblies, the debugging-labels file, cyclic recursion through rep with '
+             'the required depth diagnostic.',
         technique='Coq theorems on an assembly-pipeline error model + error-class generators / mutation campaign with the spec on real runs'),
     'C15': dict(
         category='proof',
